@@ -6,6 +6,7 @@ import (
 	"os"
 	"path/filepath"
 	"sort"
+	"strconv"
 	"strings"
 
 	"github.com/MichaelMure/git-bug/cache"
@@ -80,6 +81,8 @@ type repState struct {
 }
 
 type run struct {
+	stepIOErr bool // the current step met an injected I/O error
+	ioCtl     *sim.Control // armed with an I/O error during the current step
 	e      *Engine
 	p      *sim.Plan
 	w      *sim.World
@@ -101,7 +104,17 @@ type run struct {
 	detailPrefix string
 }
 
+// after a step that met an injected I/O error the checks of what the step should have brought in
+// are not made (a pull that cannot write may refuse or skip entities); the checks of what it must
+// not lose or damage stay.
+var gainKinds = map[string]bool{"remote-op-missing": true, "remote-only-entity-missing": true, "status-disagrees": true,
+	"returned-entity-not-merged": true, "ff-not-applied": true, "ff-status-wrong": true}
+
 func (x *run) violate(kind, format string, a ...interface{}) {
+	if gainKinds[kind] && (x.stepIOErr || (x.ioCtl != nil && x.ioCtl.ErrFiredCount() > 0)) {
+		x.probe("gain_check_skipped_after_io_error")
+		return
+	}
 	key := kind
 	if x.detailPrefix != "" {
 		key = kind + "/attributed"
@@ -128,6 +141,7 @@ func (x *run) probe(k string) { x.w.Stats.Probe(k) }
 
 func (e *Engine) Execute(p *sim.Plan, keepLog bool) (res *sim.RunResult) {
 	res = &sim.RunResult{}
+	goBase := verifrt.LiveGoroutines()
 	w := sim.NewWorld(p.RunSeed, keepLog)
 	defer w.Close()
 	x := &run{e: e, p: p, w: w, res: res, prop: p.Property, faults: p.CfgBool("faults"),
@@ -137,7 +151,7 @@ func (e *Engine) Execute(p *sim.Plan, keepLog bool) (res *sim.RunResult) {
 		if r := recover(); r != nil {
 			verifrt.RecordPanic("repsim step", r)
 			res.HarnessErr = fmt.Sprintf("panic in step %d: %v", x.step, r)
-			for _, pr := range verifrt.TakePanicsQuiesced() {
+			for _, pr := range verifrt.TakePanicsQuiesced(goBase) {
 				res.HarnessErr += "\n" + pr.Stack
 			}
 		}
@@ -166,7 +180,7 @@ func (e *Engine) Execute(p *sim.Plan, keepLog bool) (res *sim.RunResult) {
 	x.quiesce()
 	x.finalChecks()
 	// panics in goroutines spawned by git-bug
-	for _, pr := range verifrt.TakePanicsQuiesced() {
+	for _, pr := range verifrt.TakePanicsQuiesced(goBase) {
 		x.probe("panic_observed")
 		if x.on("C07") {
 			x.violate("panic", "panic in %s: %s", pr.Site, pr.Value)
@@ -505,7 +519,36 @@ func (x *run) execStep(s *sim.Step) {
 	if x.on("C15") {
 		hostBefore = x.hostSnapshot(rs)
 	}
+	ioClass := ""
+	ioCtl := rs.r.C
+	x.stepIOErr, x.ioCtl = false, nil
+	if strings.HasPrefix(s.F, "ioerr:") && ioCtl != nil {
+		var k, n int
+		f := strings.Split(s.F, ":")
+		if len(f) == 4 {
+			ioClass = f[1]
+			k, _ = strconv.Atoi(f[2])
+			n, _ = strconv.Atoi(f[3])
+			ioCtl.ArmErr(ioClass, k, n)
+			x.ioCtl = ioCtl
+		}
+	}
 	err := x.doStep(rs, s, pre)
+	if ioClass != "" {
+		x.ioCtl = nil
+		if fired := ioCtl.DisarmErr(); fired > 0 {
+			x.stepIOErr = true
+			x.w.Stats.Fault("ioerr-" + ioClass)
+			if err == nil {
+				x.probe("io_error_not_reported_by_the_step")
+			} else if s.Id%2 == 0 && rs.alive && rs.r.C == ioCtl {
+				// a command that fails ends its process: a clean close and a new session. (Odd
+				// steps: a long-lived process, the web UI, that goes on with what it has.)
+				x.probe("session_ended_after_io_error")
+				_ = x.stepRestart(rs, &sim.Step{K: "clean"})
+			}
+		}
+	}
 	if hostBefore != nil {
 		x.hostCompare(rs, hostBefore, x.hostSnapshot(rs), fmt.Sprintf("step %s %s", s.Op, s.K))
 		x.ntProbes["host"] = true
@@ -744,6 +787,12 @@ func (x *run) stepEdit(rs *repState, s *sim.Step) error {
 		}
 	}
 	if appended == 0 {
+		// an editing call that reports an error (an I/O error while the search index is updated)
+		// has all the same appended its operation to the loaded bug: it is staged there
+		if h.bc != nil && h.bc.NeedCommit() && !rs.staged[id] {
+			rs.staged[id] = true
+			x.probe("operation_staged_by_a_call_that_reported_an_error")
+		}
 		return nil
 	}
 	if h.bc != nil {
@@ -753,7 +802,8 @@ func (x *run) stepEdit(rs *repState, s *sim.Step) error {
 			return nil
 		}
 		err = h.bc.Commit()
-		if err == nil {
+		if err == nil || !h.bc.NeedCommit() {
+			// (a commit that failed half-way may have nothing left to commit)
 			delete(rs.staged, id)
 		}
 	} else {
@@ -1052,7 +1102,7 @@ func lbl(l []bug.Label) []string {
 }
 
 func (x *run) armFault(f string) {
-	if f == "" || f == "half" || f == "partial-fetch" {
+	if f == "" || f == "half" || f == "partial-fetch" || strings.HasPrefix(f, "ioerr:") {
 		return
 	}
 	x.w.Net.Fault = f
